@@ -23,6 +23,14 @@ Theorem C13_content_searches_automatic_generated :
 Proof. vm_compute. reflexivity. Qed.
 Print Assumptions C13_content_searches_automatic_generated.
 
+(* styles.xml may hold a style of a standard family both in office:styles and in office:automatic-styles (ODF schema);
+   the lookup of the styles part must search both, or merge_styles_from / insert_style cannot see the style they replace *)
+Theorem C13_standard_families_searched_everywhere_generated :
+  forallb (fun f => existsb (Nat.eqb (slot_of true 0)) (part_slots gen_tables true f)
+                    && existsb (Nat.eqb (slot_of true 1)) (part_slots gen_tables true f)) (std gen_tables) = true.
+Proof. vm_compute. reflexivity. Qed.
+Print Assumptions C13_standard_families_searched_everywhere_generated.
+
 Lemma gen_cover f m : In f gen_families -> covers_part gen_tables f m = true.
 Proof.
   intros H. pose proof C13_contexts_cover_generated as G. rewrite forallb_forall in G. specialize (G f H).
